@@ -20,6 +20,10 @@ Lemma calls_not_under_leaf : forall st, In st sites -> call_leaf_ok st = true.
 Proof. apply all_sites. vm_compute. reflexivity. Qed.
 Lemma guarded_ok : forall st, In st sites -> access_ok st = true.
 Proof. apply all_sites. vm_compute. reflexivity. Qed.
+Lemma resolves_ok : forall st, In st sites -> resolve_ok st = true.
+Proof. apply all_sites. vm_compute. reflexivity. Qed.
+Lemma resolves_present : Nat.leb 20 resolve_sites = true.
+Proof. vm_compute. reflexivity. Qed.
 Lemma waits_ok : forall st, In st sites -> wait_ok st = true.
 Proof. apply all_sites. vm_compute. reflexivity. Qed.
 Lemma calls_panic_safe : forall st, In st sites -> panic_safe st = true.
